@@ -533,4 +533,54 @@ MUTANTS = [
            "R2.mask-convention"),
     Mutant("repair-value-order-read", CONV, '    bond_type_id = struct_conn["conn_type_id"].as_array()\n',
            '    bond_type_id = struct_conn["conn_type_id"].as_array()\n    _order = struct_conn["pdbx_value_order"]\n', "R3.column-consumed", kind="repair"),
+    # ---- one seeded fault per remaining rule ----
+    Mutant("comp-arom-entry-wrong", CONV, '    ("AROM", "Y"): BondType.AROMATIC,\n', '    ("AROM", "Y"): BondType.AROMATIC_SINGLE,\n', "R1.comp-table-inverse"),
+    Mutant("conn-type-id-unknown", CONV, '    BondType.AROMATIC: "covale",\n', '    BondType.AROMATIC: "covale_arom",\n', "R1.conn-type-known"),
+    Mutant("metalc-read-as-single", CONV, '    "metalc": BondType.COORDINATION,\n', '    "metalc": BondType.SINGLE,\n', "R1.coordination-roundtrip"),
+    Mutant("model-num-from-zero", CONV, "            np.arange(1, array.stack_depth() + 1, dtype=np.int32),\n", "            np.arange(array.stack_depth(), dtype=np.int32),\n",
+           "R2.model-numbering"),
+    Mutant("res-name-read-from-asym-id", CONV, '            atom_site, f"{prefix}_comp_id", f"{alt_prefix}_comp_id"\n', '            atom_site, f"{prefix}_asym_id", f"{alt_prefix}_asym_id"\n',
+           "R2.reader-column"),
+    Mutant("element-read-from-atom-id", CONV, '    array.set_annotation("element", atom_site["type_symbol"].as_array(str))\n',
+           '    array.set_annotation("element", atom_site["label_atom_id"].as_array(str))\n', "R2.reader-column"),
+    Mutant("reader-ignores-ins-code", CONV, '        "auth_seq_id",\n        "pdbx_PDB_ins_code",\n    ]\n', '        "auth_seq_id",\n    ]\n', "R3.partner-columns"),
+    Mutant("both-partners-first-atom", CONV, "            atom_indices = bond_array[:, i]\n", "            atom_indices = bond_array[:, 0]\n", "R3.partner-columns"),
+    Mutant("first-altloc-empty-id-dropped", FILT,
+           '    altloc_filter = np.isin(altloc_ids, [".", "?", " ", ""])\n\n    # And filter all atoms for each residue with the first altloc ID',
+           '    altloc_filter = np.isin(altloc_ids, [".", "?", " "])\n\n    # And filter all atoms for each residue with the first altloc ID',
+           "R4.no-altloc-kept", qualname="filter_first_altloc"),
+    Mutant("occupancy-altloc-question-mark-dropped", FILT,
+           '    altloc_filter = np.isin(altloc_ids, [".", "?", " ", ""])\n\n    # And filter all atoms for each residue with the highest sum of',
+           '    altloc_filter = np.isin(altloc_ids, [".", " ", ""])\n\n    # And filter all atoms for each residue with the highest sum of',
+           "R4.no-altloc-kept", qualname="filter_highest_occupancy_altloc"),
+    Mutant("compress-fallback-float32", COMPRESS,
+           "            # non-finite or too large values can only be kept as float\n            return bcif.BinaryCIFData(array, [ByteArrayEncoding()])",
+           "            # non-finite or too large values can only be kept as float\n            return bcif.BinaryCIFData(array, [ByteArrayEncoding(np.float32)])",
+           "R6.fallback-lossless"),
+    Mutant("compress-guard-removed", COMPRESS,
+           "        if not np.isfinite(array).all() or (\n            np.abs(array) * factor >= np.iinfo(np.int32).max\n        ).any():\n            # The fixed point representation is a 32 bit integer:\n            # non-finite or too large values can only be kept as float\n            return bcif.BinaryCIFData(array, [ByteArrayEncoding()])\n",
+           "", "R6.fixed-point-guarded"),
+    Mutant("compress-guard-after-encode", COMPRESS,
+           "        to_integer_encoding = FixedPointEncoding(factor)\n        integer_array = to_integer_encoding.encode(array)\n",
+           "        to_integer_encoding = FixedPointEncoding(factor)\n", "R6.fixed-point-guarded"),
+    Mutant("compress-other-factor", COMPRESS, "        to_integer_encoding = FixedPointEncoding(factor)", "        to_integer_encoding = FixedPointEncoding(10 * factor)",
+           "R6.same-factor"),
+    Mutant("decimals-absolute-error", COMPRESS, "        if np.all(error < tol * np.abs(array)):", "        if np.all(error < tol):", "R6.tolerance"),
+    Mutant("coord-first-model-only", CONV, "        coord = np.reshape(array.coord, (array.stack_depth() * array.array_length(), 3))\n",
+           "        coord = np.reshape(array.coord[0], (array.array_length(), 3))\n", "R7.coord-flattening"),
+    Mutant("coord-atom-major", CONV, "        coord = np.reshape(array.coord, (array.stack_depth() * array.array_length(), 3))\n",
+           "        coord = np.reshape(\n            np.swapaxes(array.coord, 0, 1), (array.array_length() * array.stack_depth(), 3)\n        )\n", "R7.coord-flattening"),
+    Mutant("repeat-data-elementwise", CONV, "            data = Data(np.tile(column.data.array, repetitions))\n", "            data = Data(np.repeat(column.data.array, repetitions))\n",
+           "R7.data-mask-same-expansion"),
+    Mutant("model-num-tiled", CONV,
+           '        atom_site["pdbx_PDB_model_num"] = np.repeat(\n            np.arange(1, array.stack_depth() + 1, dtype=np.int32),\n            repeats=array.array_length(),\n        )\n',
+           '        atom_site["pdbx_PDB_model_num"] = np.tile(\n            np.arange(1, array.stack_depth() + 1, dtype=np.int32),\n            array.array_length(),\n        )\n',
+           "R7.model-number-column"),
+    Mutant("model-num-repeat-swapped", CONV,
+           "            np.arange(1, array.stack_depth() + 1, dtype=np.int32),\n            repeats=array.array_length(),\n",
+           "            np.arange(1, array.array_length() + 1, dtype=np.int32),\n            repeats=array.stack_depth(),\n",
+           "R7.model-number-column"),
+    Mutant("reader-reshape-transposed", CONV,
+           '            atom_site["Cartn_y"]\n            .as_array(np.float32)\n            .reshape((model_count, model_length))\n',
+           '            atom_site["Cartn_y"]\n            .as_array(np.float32)\n            .reshape((model_length, model_count))\n', "R7.reader-reshape"),
 ]
